@@ -804,6 +804,16 @@ class Lib:
         b = eng.eval(st, node.args[2])
         return VStream(z3.If(c, a.t, b.t))
 
+    def sp_None_U(self, st, node):
+        return VU(NONE_U)
+
+    def sp_ite_ms(self, st, node):
+        eng = self.eng
+        c = eng.truthy(st, eng.eval(st, node.args[0]))
+        a = eng.eval(st, node.args[1])
+        b = eng.eval(st, node.args[2])
+        return VSpecTerm(z3.If(c, a.t, b.t))
+
     def sp_ite_u(self, st, node):
         eng = self.eng
         c = eng.truthy(st, eng.eval(st, node.args[0]))
@@ -1504,7 +1514,13 @@ class Lib:
     def sp_implies(self, st, node):
         eng = self.eng
         a = eng.truthy(st, eng.eval(st, node.args[0]))
-        b = eng.truthy(st, eng.eval(st, node.args[1]))
+        try:
+            b = eng.truthy(st, eng.eval(st, node.args[1]))
+        except (self.E.Unsupported, self.E.RaiseEx):
+            # consequent not expressible in this state (e.g. a local that
+            # does not exist on this path): provable only if the antecedent
+            # is false
+            b = st.fresh("undef", BoolS)
         return VBool(z3.Implies(a, b))
 
     def sp_iff(self, st, node):
@@ -1575,6 +1591,13 @@ class Lib:
         it = self._iter_arg(st, node)
         i = eng.eval(st, node.args[1])
         return VU(it.seq[i.t])
+
+    def sp_srcstream(self, st, node):
+        it = self._iter_arg(st, node)
+        s_ = getattr(it, "stream", None)
+        if s_ is None:
+            raise self.E.Unsupported("iterator without a source stream")
+        return VStream(s_)
 
     def sp_pmset(self, st, node):
         """multiset of the first k elements of the source (default: consumed
